@@ -514,6 +514,11 @@ func (d *Driver) WriteEvidence() error {
 		return err
 	}
 	dir := filepath.Join(d.Root, "evidence")
+	if os.Getenv("VERIF_REPO") != "" {
+		// Development run against a scratch copy of the repository: the
+		// evidence directory only holds runs against /repo itself.
+		dir = filepath.Join(d.Root, ".bin", "evidence-scratch")
+	}
 	os.MkdirAll(dir, 0o755)
 	return os.WriteFile(filepath.Join(dir, d.Prop.ID()+".json"), b, 0o644)
 }
